@@ -49,13 +49,15 @@ fn mk(kind: &str, kids: Vec<Arc<Relation>>, relations: &Hierarchy<Arc<Relation>>
             // built directly (the builder would insert a Map below the Reduce)
             use qrlew::expr::{aggregate::Aggregate, AggregateColumn};
             let (c0, cl) = first_last(&kids[0]);
-            let agg = if kind == "ReduceDp" { Aggregate::Sum } else if c0 == cl { Aggregate::NUnique } else { Aggregate::Max };
+            let agg = if kind == "ReduceDp" { Aggregate::Sum } else { Aggregate::Max };
+            // MAX of the grouping column itself would be supported: on a single-column input, do not group
+            let group_by: Vec<qrlew::expr::Column> = if kind == "ReduceNoDp" && c0 == cl { vec![] } else { vec![c0.clone().into()] };
             let named = vec![
                 ("id".to_string(), AggregateColumn::new(Aggregate::First, c0.clone().into())),
                 ("x".to_string(), AggregateColumn::new(agg, cl.into())),
             ];
             let name = qrlew::namer::name_from_content("reduce", &(&named, &kids[0]));
-            Relation::Reduce(Reduce::new(name, named, vec![c0.into()], kids[0].clone()))
+            Relation::Reduce(Reduce::new(name, named, group_by, kids[0].clone()))
         }
         "Join" => {
             let (l0, _) = first_last(&kids[0]);
